@@ -1068,7 +1068,7 @@ postfixexpr(struct scope *s, struct expr *r)
 			r = mkunaryexpr(TMUL, r);
 			/* an array member has decayed to a pointer, which is not an lvalue */
 			(r->decayed ? r->base : r)->lvalue = lvalue;
-			if (m->bits.before || m->bits.after) {
+			if (m->bitfield) {
 				e = mkexpr(EXPRBITFIELD, r->type, r);
 				e->lvalue = lvalue;
 				e->u.bitfield.bits = m->bits;
